@@ -20,9 +20,13 @@ CLAIMS = {
          "learning-rate exponent per round, strict non-NaN adoption, first-argmin result, recorded losses) hold for all histories "
          "with no bound on length. The model is tied to the code by driving the real routine with a scripted SVI stand-in and "
          "comparing returned state, every call's (input state, learning rate) and recorded losses exactly (exhaustive over short "
-         "histories + random long ones); extracted defaults/call-site configs are proof obligations."),
+         "histories + random long ones); extracted defaults/call-site configs are proof obligations. In addition the routine's source "
+         "is TRANSLATED on every run (tools/translate_prog.py: assignments, if/elif/else, for-range loops with break, the update "
+         "calls, the return) into a Lean program over a shallow imperative embedding, and gen_run_eq / gen_calls_eq prove that "
+         "this program returns the model's result and makes the model's update calls for every history and configuration; the "
+         "translated program is also run against the real routine."),
    note=NOTE + "C14: the SVI object is abstracted to (state identity, loss) per update; Adam/ELBO/jit not modelled.",
-   technique="Lean 4 theorems by induction over the loop model + trace correspondence with the real routine (scripted SVI)",
+   technique="Lean 4 theorems by induction over the loop model; source-to-Lean translation of the routine proved equal to the model (simulation by induction over both loops); trace correspondence with the real routine (scripted SVI)",
    design="7/C14"),
  "C17": dict(
    text=("Proof, full: Python slice normalisation and the four-slice gathering of estimate_sky are modelled in Lean; for every shape "
@@ -30,7 +34,11 @@ CLAIMS = {
          "exactly the pixels within n of an edge, each once (Nodup), that the count is H·W−(H−2n)(W−2n) minus masked border pixels, "
          "and that the (median, scatter, count) triple is invariant under any change of interior or masked pixels. Tie: the real "
          "estimate_sky on index-encoded images with the array reaching the statistics captured (and cross-checked black-box by ±BIG "
-         "perturbation of every pixel) compared with the model's used set; all call styles incl. SourceProperties."),
+         "perturbation of every pixel) compared with the model's used set; all call styles incl. SourceProperties and a masked-array "
+         "image combined with a separate mask. The slices and the guard that applies the separate mask are REGENERATED from the "
+         "source on every run: repo_slices proves the source's slices gather the model's border for every shape, repo_mask_rule / "
+         "repo_masks_honoured that a pixel masked either way is masked when the border is gathered (the two other guards the code "
+         "has had are proved to violate this, with witnesses replayed on the implementation)."),
    note=NOTE + "C17: np.ma.median / astropy biweight_scale abstracted as arbitrary functions of the gathered values; photutils outside the model.",
    technique="Lean 4 theorems over list/slice model (all shapes, masks, statistics) + gathered-set correspondence with the real estimate_sky",
    design="7/C17"),
